@@ -554,6 +554,25 @@ more_time:
 		val *= 10U;
 		val += tmp;
 	}
+	if (i < len && str[i] == '.') {
+		/* a fraction, that's seconds and nothing else, we keep
+		 * milliseconds */
+		unsigned int frac = 0U;
+		unsigned int mul = 100U;
+
+		for (i++; i < len; i++, mul /= 10U) {
+			unsigned int tmp;
+
+			if ((tmp = str[i] ^ '0') >= 10U) {
+				break;
+			}
+			frac += tmp * mul;
+		}
+		if (UNLIKELY(i >= len || str[i] != 'S')) {
+			goto out;
+		}
+		msd += (int64_t)frac;
+	}
 	/* here we just deflect the true character by some bits
 	 * made up from STEP because 'M' | 0x1U == 'M', same for 'S'
 	 * and 'S' | 0x11U == 'S' */
@@ -642,8 +661,19 @@ idiff_strf(char *restrict buf, size_t bsz, echs_idiff_t idiff)
 
 		tmp = idiff.d / 1000U;
 		idiff.d %= 1000U;
-		if (tmp) {
-			i += ui32tostr(buf + i, bsz - i, tmp);
+		if (tmp || idiff.d) {
+			if (LIKELY(tmp)) {
+				i += ui32tostr(buf + i, bsz - i, tmp);
+			} else {
+				buf[i++] = '0';
+			}
+			if (idiff.d && i + 4U < bsz) {
+				/* the milliseconds, as a fraction */
+				buf[i++] = '.';
+				buf[i++] = (char)('0' + idiff.d / 100U);
+				buf[i++] = (char)('0' + idiff.d / 10U % 10U);
+				buf[i++] = (char)('0' + idiff.d % 10U);
+			}
 			if (i >= bsz) {
 				goto out;
 			}
